@@ -733,7 +733,8 @@ RULE = ("conformations are generated from seeded recipes (kinds: random, near_id
         "(up to 500 nm), grid (integer coordinates, exact tie), tiny (water-sized), half_turn_axis/generic, "
         "near_half_turn, swapped_halves) with atom counts covering all residues mod 4 up to 4099; ops = md.rmsd (parallel x "
         "precentered x atom_indices none/equal/different, any order, any reference frame), Trajectory.superpose, "
-        "md.rmsf, md.lprmsd; a case-op-frame is non-trivial when the two conformations differ; distinct by hash of "
+        "md.rmsf, md.lprmsd, and md.rmsd(precentered=True) after short histories (center_coordinates, superpose onto "
+        "centred/off-origin references, slicing, atom_slice, xyz assignment); a case-op-frame is non-trivial when the two conformations differ; distinct by hash of "
         "(generator recipe, op)")
 TRUSTED = ["harness/impl/rmsd_impl.py (builds Trajectory objects, calls the public API, returns raw arrays)",
            "harness/props/C06.py: C-subset translator (decides which source text becomes which Gallina term), case "
@@ -963,6 +964,52 @@ def gen_ops(rng, gen, quick, full=True):
     return ops
 
 
+def gen_history_op(rng, n, m, F, G, offset):
+    """md.rmsd(precentered=True) after a short history of public-API operations (C06 quantifier: precentered in
+    {True, False}); the reference is the trajectory itself or a second, centred or uncentred, trajectory."""
+    steps = []
+    cur_n, cur_F = n, F
+    other = rng.random() < 0.4
+    user_edit = rng.random() < 0.15
+    choices = ["center", "center", "superpose", "superpose", "slice", "xyz_assign"] + ([] if other else ["atom_slice"])
+    for _ in range(rng.randint(1, 4)):
+        k = rng.choice(choices)
+        if k == "center":
+            steps.append(["center"])
+        elif k == "superpose":
+            ai = ri = None
+            if cur_n != m or rng.random() < 0.5:
+                kk = rng.randint(3, cur_n)
+                ai = rng.sample(range(cur_n), kk)
+                ri = rng.sample(range(m), kk) if (rng.random() < 0.5 or cur_n != m) else None
+            steps.append(["superpose", rng.random() < 0.4, rng.randrange(G), ai, ri, rng.random() < 0.5])
+        elif k == "slice":
+            start = rng.randrange(cur_F)
+            step = rng.choice([1, 1, 2])
+            stop = rng.choice([None, rng.randint(start + 1, cur_F)])
+            steps.append(["slice", start, stop, step])
+            cur_F = len(range(cur_F)[start:stop:step])
+        elif k == "atom_slice":
+            if cur_n <= 3:
+                continue
+            idx = sorted(rng.sample(range(cur_n), rng.randint(3, cur_n)))
+            steps.append(["atom_slice", idx, rng.random() < 0.5])
+            cur_n = len(idx)
+        else:
+            sh = [0.0, 0.0, 0.0] if rng.random() < 0.3 else [round(rng.uniform(-offset, offset), 3) for _ in range(3)]
+            steps.append(["xyz_assign", sh])
+    if rng.random() < 0.5:
+        steps.append(["center"])
+    if user_edit:
+        steps.append(["inplace_shift", [round(rng.uniform(-1, 1), 3) for _ in range(3)]])
+    op = {"op": "history", "steps": steps, "parallel": rng.random() < 0.5}
+    if other:
+        op.update(ref="other", ref_steps=[["center"]] if rng.random() < 0.7 else [], frame=rng.randrange(G))
+    else:
+        op.update(ref="self", frame=rng.randrange(cur_F))
+    return op
+
+
 def build_cases(ctx):
     rng = ctx.rng
     quick = ctx.tier == "quick"
@@ -995,6 +1042,19 @@ def build_cases(ctx):
         add({"kind": "grid", "n": n, "m": n, "F": rng.randint(1, 3), "G": 1, "lim": rng.choice([3, 6, 12]), "unit": 8},
             ops=[{"op": "rmsd", "frame": 0, "parallel": True}, {"op": "rmsd", "frame": 0, "parallel": False},
                  {"op": "superpose", "frame": 0, "parallel": True}])
+    # precentered=True after short histories (cached traces must be dropped or stay valid)
+    for _ in range(30 if quick else 600):
+        n = rng.randint(4, 24)
+        gen = {"kind": rng.choice(["random", "near_identical", "offset"]), "n": n, "m": n, "F": rng.randint(2, 6), "G": rng.randint(1, 3),
+               "scale": 1.0, "offset": rng.choice([0.0, 2.0, 20.0])}
+        add(gen, ops=[gen_history_op(rng, n, n, gen["F"], gen["G"], max(gen["offset"], 1.0)) for _ in range(3)])
+    # fixed probes: centre, superpose onto an off-origin / centred reference (all atoms, a selection), then ask for precentered
+    for off in (20.0, 0.0):
+        gen = {"kind": "random", "n": 9, "m": 9, "F": 3, "G": 2, "scale": 1.0, "offset": off}
+        sel = [0, 2, 3, 5, 8]
+        add(gen, ops=[{"op": "history", "steps": [["center"], ["superpose", cen, 1, ai, ri, True]] + tail, "parallel": True, "ref": "self", "frame": 1}
+                      for cen in (False, True) for ai, ri in ((None, None), (sel, None), (sel, [1, 4, 6, 7, 2]))
+                      for tail in ([], [["slice", 0, None, 2]])])
     # the rmsf-with-atom-indices path
     for _ in range(4 if quick else 30):
         n = rng.randint(6, 30)
@@ -1183,6 +1243,9 @@ def check_cases(ctx, cases, arrays, out, errors):
                     ctx.fail("md.%s depends on the parallel flag" % op["op"], {"gen": gen, "ops": [c["ops"][op["same_as"]], op]},
                              observed={"parallel": [float(v) for v in other[:4]], "serial": [float(v) for v in val[:4]]},
                              expected="bitwise identical results", tags={"kind": "parallel_flag", "op": op["op"]})
+            if op["op"] == "history":
+                check_history(ctx, rec, op, gen, val, out, key, bucket, track, excl)
+                continue
             A, B = op_indices(op, n, m)
             fr = op.get("frame", 0)
             if op["op"] in ("rmsd", "lprmsd"):
@@ -1280,6 +1343,44 @@ def check_cases(ctx, cases, arrays, out, errors):
                              expected={"rmsf_head": [float(v) for v in true[:4]], "tol": tol},
                              tags={"kind": "rmsf_value", "explained_by": explained})
     return pending
+
+
+def check_history(ctx, rec, op, gen, pre, out, key, bucket, track, excl):
+    nopre, xyz, rxyz, flags = out[key + "_nopre"], out[key + "_xyz"], out[key + "_rxyz"], out[key + "_flags"]
+    fr = op["frame"]
+    edited = any(st[0] == "inplace_shift" for st in op["steps"] + op.get("ref_steps", []))
+    kinds = "+".join(st[0] for st in op["steps"])
+    for f in range(xyz.shape[0]):
+        a, b = xyz[f], rxyz[fr]
+        msd, R, ca, cb = kabsch(a, b)
+        size2, rad, kappa = size_terms(a, b)
+        if kappa < KAPPA_MIN:
+            excl["degenerate_top_eigenvalue"] = excl.get("degenerate_top_eigenvalue", 0) + 1
+            continue
+        off = float(max(np.abs(ca).max(), np.abs(cb).max()))
+        tol = C_MSD * EPS * size2 * (1 + 1 / kappa) + (4 * EPS * off) ** 2 + 8 * EPS * off * math.sqrt(msd)
+        centred = off <= 1e-4 * (rad + 1e-3)
+        ctx.count({"gen": gen, "op": op, "f": f}, nontrivial=msd > 0,
+                  bucket="history/traces=%d%d/%s" % (int(flags[0]), int(flags[1]), "centred" if centred else "off-origin"))
+        got_np = float(nopre[f]) ** 2
+        if not abs(got_np - msd) <= tol:
+            ctx.fail("md.rmsd differs from the minimal RMSD over rotations and translations", rec,
+                     observed={"frame": f, "rmsd": float(nopre[f])}, expected={"rmsd": math.sqrt(msd), "tol_msd": tol},
+                     tags={"kind": "rmsd_value", "op": "rmsd", "gen": gen["kind"]})
+            return
+        if edited and flags[0] and flags[1] and not centred:
+            # the user moved the coordinates behind the object's back: documented precondition of precentered violated
+            excl["precentered_after_user_edit"] = excl.get("precentered_after_user_edit", 0) + 1
+            continue
+        got = float(pre[f]) ** 2
+        track("rmsd_precentered_history", abs(got - msd) / tol)
+        if not abs(got - msd) <= tol:
+            ctx.fail("md.rmsd(precentered=True) is wrong after a history of public operations (stale or missing cached traces)", rec,
+                     observed={"frame": f, "rmsd_precentered": float(pre[f]), "rmsd_not_precentered": float(nopre[f]),
+                               "traces_present": [int(v) for v in flags], "coordinates_centred": bool(centred), "history": kinds},
+                     expected={"rmsd": math.sqrt(msd), "tol_msd": tol},
+                     tags={"kind": "precentered_history", "gen": gen["kind"]})
+            return
 
 
 def rmsf_cur_emulation(target, A, Rs):
